@@ -411,6 +411,17 @@ func (s *MemoryStore) RevokeAccessToken(ctx context.Context, requestID string) e
 			return err
 		}
 	}
+
+	// AccessTokenRequestIDs only remembers the most recent signature of a request ID. More than one access
+	// token can share a request ID (for example the token issued by the authorization endpoint in the hybrid
+	// flow and the one issued when the code is exchanged), so remove the remaining ones as well.
+	s.accessTokensMutex.Lock()
+	defer s.accessTokensMutex.Unlock()
+	for signature, req := range s.AccessTokens {
+		if req.GetID() == requestID {
+			delete(s.AccessTokens, signature)
+		}
+	}
 	return nil
 }
 
